@@ -85,9 +85,10 @@ pub struct S1 {
     #[deb822(field = "Big-Count")]
     big: u64,
     flag: bool,
-    opt_name: Option<String>,
+    // written with a path, as a struct in another crate may do: optional fields are recognised by the last path segment
+    opt_name: std::option::Option<String>,
     #[deb822(field = "Opt-Count")]
-    opt_count: Option<i32>,
+    opt_count: core::option::Option<i32>,
     opt_flag: Option<bool>,
     #[deb822(field = "Colour")]
     colour: Color,
